@@ -276,7 +276,10 @@ def fill_complete(ctx: Ctx):
         if isinstance(lp, ast.For) and isinstance(lp.target, ast.Name) and isinstance(lp.iter, ast.Call) and is_name(lp.iter.func, "range") and any(isinstance(n, ast.Attribute) and n.attr == "n_components" for n in ast.walk(lp.iter)):
             # the loop stores column `c` of some exposed matrix
             c = lp.target.id
-            stores = [u for u in ast.walk(lp) if isinstance(u, ast.Call) and call_name(u) == "index_update" and len(u.args) >= 2 and any(isinstance(n, ast.Name) and n.id == c for n in ast.walk(u.args[1]))]
+            from .state import _resolve_at
+
+            # the index may be named first (`column = T.index[:, c]`)
+            stores = [u for u in ast.walk(lp) if isinstance(u, ast.Call) and call_name(u) == "index_update" and len(u.args) >= 2 and any(isinstance(n, ast.Name) and n.id == c for n in ast.walk(_resolve_at(u.args[1], u, f.node, depth=2)))]
             if stores:
                 loops.append((lp, c, stores))
     if not loops:
